@@ -66,6 +66,15 @@ Proof.
 Qed.
 Print Assumptions C02_full_run_density_matrix_valid.
 
+(* the purity measure tr(rho^2) itself is conserved by every exp step and by any number of them -
+   also for mixed states, which therefore stay exactly as mixed as they were (a pure state stays pure
+   is the special case tr(rho^2) = 1) *)
+Theorem C02_purity_measure_conserved : forall n (steps : list (list R * mat (T:=R) * R)) (rho : mat (T:=R)),
+  Forall (fun s => let '(lam, Cm, dt) := s in length lam = n /\ unitary n (mget ROps Cm)) steps ->
+  mpurity n (exp_steps n steps rho) = mpurity n rho.
+Proof. intros. apply exp_steps_purity. assumption. Qed.
+Print Assumptions C02_purity_measure_conserved.
+
 (* PARTIAL: purity and positivity under 'linear-rk4' hold only to the accuracy of the RK4
    integrator (it is not unitary); not mechanised, measured by the harness.
    Hop attempts: Model/Hop.hop_to_it neither takes nor returns the density matrix (checked on the
